@@ -9,6 +9,7 @@
     reader for: the TXT register space). *)
 From Coq Require Import Strings.Byte.
 From CSS Require Import Lib.Base Lib.Cases Model.TPM Model.BootSim Model.BootSimObjs.
+From CSS Require Import Model.BootSimSrc Model.BootSimLedger.
 From CSS Require Model.Ranges Model.Refs.
 Module RF := CSS.Model.Refs.
 Module RG := CSS.Model.Ranges.
@@ -58,16 +59,35 @@ Definition img_ref (id : Z) (img : list Z) (ranges : list (Z * Z)) : cref :=
 Definition raw_ref (id : Z) (b : list Z) (ranges : list (Z * Z)) : cref :=
   CRef (RF.mkRef (RF.mkArt id 0 true b) RF.MNil (map (fun '(o, n) => RG.mkR o n) ranges)).
 
+(** * The platform of the data sources (Model/BootSimSrc.v) over these references *)
+
+(** [img]: the BIOS image among the system artifacts of the State, if any.
+    datasources.Bytes(b): the artifact is the byte string, one range [0, len b);
+    datasources.MemRanges: one reference into the image under PhysMemMapper;
+    forced bytes: the content of a types.RawBytes artifact *)
+Definition cplat (img : option (list Z)) : platform cref :=
+  mkPlat (match img with Some _ => true | None => false end)
+         (fun b => raw_ref 0 b [(0, RF.zlen b)])
+         (fun rs => img_ref 1 (match img with Some i => i | None => [] end) rs)
+         (fun r => match r with
+                   | CRef r' => if RF.araw (RF.rart r') then RF.acontent (RF.rart r') else []
+                   | CLit _ => []
+                   end).
+
 (** * Cases *)
 Record case := mkCase {
   c_tbl : hash_table;
+  c_img : option (list Z);                  (* the BIOS image in the State (None: the State has none) *)
   c_start : Z;                              (* the TPM object of the boot: 0 NewTPM(); the object of earlier
                                                boots recycled with 1 Reset(), 2 DoNotUse_ResetNoInit(),
                                                3 DoNotUse_ResetNoInit() + SupportedAlgos restored *)
   c_pool : list Z;                          (* the converter objects made so far on this platform: their algorithms *)
-  c_flow : list (list (item cref));         (* [d_conv = Some k]: converter object number k of [c_pool] *)
+  c_flow : list (list (sitem cref));        (* the measurements name their data source (Model/BootSimSrc.v);
+                                               [d_conv = Some k]: converter object number k of [c_pool] *)
   c_pcrs : list (list (list Z));            (* TPM.PCRValues *)
   c_cmdlog : list cmd;                      (* TPM.CommandLog.Commands() *)
+  c_causes : list (nat * nat);              (* per CommandLog entry: its cause, as (index of the executed step, index of
+                                               the action among the actions of that step) *)
   c_evlog : list event;                     (* TPM.EventLog *)
   c_meas : list (Z * Z);                    (* per MeasuredData entry: len and digest of ConvertedBytes *)
   c_flags : list (list bool);               (* per executed step, per action: an issue was recorded *)
@@ -131,15 +151,31 @@ Definition reuse_of (k : Z) : reuse :=
 (** The converter objects start with an empty running state: whatever earlier
     conversions left in them does not matter ([oboot_is_boot] holds for every pool),
     and the harness runs real earlier conversions on the real objects. *)
+Definition coord_eqb (x y : nat * nat) : bool := Nat.eqb (fst x) (fst y) && Nat.eqb (snd x) (snd y).
+
+(** The data sources are resolved first (Model/BootSimSrc.v), the boot runs at the
+    level of Model/BootSimObjs.v; the value-level run with causes and the ledger
+    (Model/BootSimLedger.v: the specification of the command log, of the step issues
+    and of the causes, computed from the items alone) are evaluated beside it. *)
 Definition check (c : case) : bool :=
   let H := H_tbl (c_tbl c) in
-  let '(o, rss) := oboot cref cbytes H (reuse_of (c_start c)) (map (fun a => mkHasher a []) (c_pool c)) [] (c_flow c) in
+  let fl := resolve_flow cref (cplat (c_img c)) (c_flow c) in
+  let vfl := rflow cref (c_pool c) fl in
+  let r0 := reuse_of (c_start c) in
+  let tagged := snd (run_flow_tagged cref cbytes H (boot_start r0) 0 vfl) in
+  let Ld := flow_ledger cref cbytes H (algos (start_of r0)) false vfl in
+  let '(o, rss) := oboot cref cbytes H r0 (map (fun a => mkHasher a []) (c_pool c)) [] fl in
   let s := o_sim o in
   let t := s_tpm s in
   let log := to_parsed (evlog t) in
   let '(ta, ra) := commands_apply H fresh (cmdlog t) in
   pcrs_eqb (pcrs t) (c_pcrs c)
   && list_eqb cmd_eqb (cmdlog t) (c_cmdlog c)
+  && list_eqb coord_eqb (map fst tagged) (c_causes c)
+  && list_eqb cmd_eqb (map snd tagged) (c_cmdlog c)
+  && list_eqb cmd_eqb (led_cmds Ld) (c_cmdlog c)
+  && list_eqb coord_eqb (map fst (led_tagged 0 Ld)) (c_causes c)
+  && list_eqb (list_eqb Bool.eqb) (led_issues Ld) (c_flags c)
   && list_eqb ev_eqb (evlog t) (c_evlog c)
   && list_eqb zlist_eqb (read_cdig o) (digests_of (c_cmdlog c))
   && list_eqb zlist_eqb (read_edig o) (map ev_digest (c_evlog c))
